@@ -307,7 +307,7 @@ def gen_pair(rng, nitems=None, nsteps=None):
     return ghw_writer.design_tokens(items, g.natoms, snap, steps), ghw, vcd
 
 
-def gen_triple(rng, nitems=None, nsteps=None, dups=None):
+def gen_triple(rng, nitems=None, nsteps=None, dups=None, srcs=None):
     """one design as GHW, VCD and FST (C12 / C10). Restrictions of gen_pair; FST needs at least one signal."""
     from gen import vcd_writer, fst_writer
     while True:
@@ -338,5 +338,5 @@ def gen_triple(rng, nitems=None, nsteps=None, dups=None):
         kk += 1
     vcd = vcd_writer.render(rng, items, g.natoms, snap, steps, exp=-15 + rng.randint(0, kk))
     fexp = -15 + rng.randint(0, kk)
-    fst = fst_writer.render(rng, items, g.natoms, snap, steps, exp=fexp, dups=dups)
+    fst = fst_writer.render(rng, items, g.natoms, snap, steps, exp=fexp, dups=dups, srcs=srcs)
     return ghw_writer.design_tokens(items, g.natoms, snap, steps), ghw, vcd, fst, fexp
